@@ -9,21 +9,9 @@ from values import pval_j, num_j
 
 LEVEL = "proof"
 MODULE = "Phil.Props.C09"
-LEVEL_TEXT = ("Lean theorems about the converter model: fromWords (asWords v) = v for every built-in type on its domain "
-              "(bool, int with exact decimal rendering, str/path/key character for character via the quoting theorem C03, "
-              "strings, ints, choice single/multi, None, Auto), asWords refuses values that break bounds, sizes, alternatives or "
-              "None rules. float text is CPython's ('%.10g', eval): the law is a hypothesis there and the harness supplies the "
-              "renderings. The model (as_words per type, scope.format, extract) is tied to /repo by a correspondence run of "
-              "format on generated in-domain values; the oracle checks format->extract equality, the print/parse/fetch/extract "
-              "leg, and refusal of out-of-domain values, on the implementation.")
-LEVEL_NOTE = ("Known findings (excluded from the in-domain stream, visited in their own): D15 empty list, D16 one-element "
-              "[None]/[Auto] lists, D18 path starting with '~'. Floats compared to 10 significant digits. The print leg is run at "
-              "the default width on every case (with .multiple parameters: the text must read back; values are compared "
-              "where no instance can collapse) and at a narrower width on every second case; 40% of the cases carry list "
-              "values / choice alternative lists longer than a print line, mixing bare and quoted words. A printed text that "
-              "does not parse on an input with a line-spanning list element followed by a further element is counted under "
-              "finding D6 (recorded under C01: continuation mark after a multi-line quoted word) while D6's witness fails.")
-TECHNIQUE = "Lean 4 round-trip theorems per converter + differential correspondence of format + round-trip oracle"
+LEVEL_TEXT = 'Lean theorems about the converter model: fromWords (asWords v) = v for every built-in type on its domain (bool, int, str/path/key character for character via C03, strings, ints, floats under the %.10g law, choice single/multi, None, Auto), asWords refuses exactly the values that break bounds, sizes, alternatives or None rules (asWords_refuses, asWords_stray_iff), whole-tree closed forms format_closed / extract_closed / format_extract_tree on nested masters. Tied to /repo by a correspondence run of format on generated in-domain values; the oracle checks format->extract equality, the print/parse/fetch/extract leg on every case (values longer than a print line, narrow widths) and refusal of out-of-domain values, on the implementation.'
+LEVEL_NOTE = "float text is CPython's ('%.10g', eval): a law (hypothesis) in the theorems, harness-supplied renderings in the run. Known findings D15 (empty list), D16 ([None]/[Auto]), D18 ('~'), D6 reached through format. Whole-tree theorems exclude .multiple."
+TECHNIQUE = 'Lean 4 round-trip theorems per converter + whole-tree format/extract closed form + differential correspondence + round-trip oracle'
 RULE = ("masters (all built-in types, multiples, nested scopes) x in-domain Python values per type (strings over quotes, "
         "backslashes, newlines, unicode; ints of any magnitude; floats incl. inf, tiny and huge; lists within bounds; choices; "
         "None/Auto; list values and choice alternative lists longer than one print line with bare and quoted words mixed) "
